@@ -297,6 +297,12 @@ _CALLNO = [0]
 _SIGS = {}
 
 
+try:
+    _PINNED_SIGS = json.load(open(os.path.join(os.path.dirname(os.path.abspath(__file__)), "api_signatures.json")))
+except OSError:
+    _PINNED_SIGS = {}
+
+
 def _call_style(name, f, args, kwargs):
     """The public functions are called positionally most of the time and, for every fifth call, with their last 1..n
     arguments passed by keyword (deterministically, by call number): behaviour must not depend on the call style."""
@@ -305,6 +311,8 @@ def _call_style(name, f, args, kwargs):
     _CALLNO[0] += 1
     if _CALLNO[0] % 5:
         return args, {}
+    if name not in _SIGS and name in _PINNED_SIGS:
+        _SIGS[name] = _PINNED_SIGS[name]     # the documented parameter names (pinned tree), not whatever the code under test now calls them
     if name not in _SIGS:
         try:
             ps = list(inspect.signature(f).parameters.values())
